@@ -1,11 +1,13 @@
 (* C20 - iwtp.c (thread pool) as a labelled transition system; same conventions as Stw.v.
-   Threads 0 .. nthreads-1 are the pool workers created (and registered in tp->threads) by iwtp_start; an
-   overflow thread spawned by iwtp_schedule is NOT registered by the code, finds idx == -1 and exits at once.
+   Threads 0 .. nthreads-1 are the pool workers created (and registered in tp->threads) by iwtp_start.
    [chk] selects the variant of iwtp_schedule: false = the code as found (no look at tp->shutdown),
-   true = fixes/exec-tp-shutdown.diff (IW_ERROR_INVALID_STATE once shutdown is set, as iwtp.h documents).
+   true = fix f543a7b (IW_ERROR_INVALID_STATE once shutdown is set, as iwtp.h documents).
    [reg]: false = the code as found (overflow thread not pushed to tp->threads: it finds idx == -1 and leaves at once, it is
-   never joined), true = fixes/exec-tp-overflow-register.diff (pushed: it runs at most one task, then unregisters and
-   detaches itself unless shutdown is set, in which case iwtp_shutdown joins it).
+   never joined), true = fix b174074 (pushed: it runs at most one task, then unregisters and detaches itself unless
+   shutdown is set, in which case iwtp_shutdown joins it).
+   The registry tp->threads is the list [regs] with the real list operations: iwulist_push = append,
+   iwulist_find_first = Lts.find_first (the index is computed once in the prologue of _worker_fn and cached in [ix]; the
+   test `idx >= tp->num_threads` uses the cached value), iwulist_remove_first_by = Lts.remove_first (removal by VALUE).
    No proofs in this file. *)
 Require Import List Bool Arith.
 Require Import IW.CC.Lts.
@@ -21,8 +23,10 @@ Inductive pcT :=
 | TStart | TReg                       (* _worker_fn prologue: lock, find idx, unlock *)
 | TTop | TL1 | TDeq | TU1t | TRun | TU1 | TL2 | TWait | TWoken | TExit | TDead.
 
-Record thr := mkt { pc : pcT; fn : nat; tk : task; wf : bool; jl : list tid }.
-Definition setpc (th : thr) (p : pcT) : thr := mkt p (fn th) (tk th) (wf th) (jl th).
+(* ix: the index `idx` that _worker_fn found for itself in tp->threads in its prologue (cached for the whole life of the
+   thread); det (ghost): the thread has unregistered and detached itself *)
+Record thr := mkt { pc : pcT; fn : nat; tk : task; wf : bool; jl : list tid; ix : nat; det : bool }.
+Definition setpc (th : thr) (p : pcT) : thr := mkt p (fn th) (tk th) (wf th) (jl th) (ix th) (det th).
 
 Record st := mk {
   queue : list task; qsize : nat; busy : nat; shut : bool;
@@ -74,7 +78,7 @@ Definition set_thr (s : st) (t : tid) (x : thr) : st := set_th s (upd (th s) t x
 
 Definition init (c : cfg) : st :=
   mk [] 0 0 false None [] (seq 0 (nthreads c)) (seq 0 (nthreads c))
-     (fun t => if t <? nthreads c then mkt TStart 0 0 false [] else mkt Idle 0 0 false [])
+     (fun t => if t <? nthreads c then mkt TStart 0 0 false [] 0 false else mkt Idle 0 0 false [] 0 false)
      [] [] [] [] [] [] false false false.
 
 Definition do_lock (s : st) (t : tid) : st := set_uaf (set_owner s (Some t)) (uaf s || freed s).
@@ -96,8 +100,8 @@ Definition step (c : cfg) (s : st) (t : tid) (e : ev) : option st :=
       | ECall f k w =>
           if t <? nthreads c then None
           else if f =? 0 then
-            if memb k (used s) then None else Some (set_thr (set_used s (k :: used s)) t (mkt Start 0 k w []))
-          else if (f =? 3) || (f =? 4) then Some (set_thr s t (mkt Start f 0 w []))
+            if memb k (used s) then None else Some (set_thr (set_used s (k :: used s)) t (mkt Start 0 k w [] 0 false))
+          else if (f =? 3) || (f =? 4) || (f =? 5) then Some (set_thr s t (mkt Start f 0 w [] 0 false))
           else None
       | _ => None
       end
@@ -136,7 +140,7 @@ Definition step (c : cfg) (s : st) (t : tid) (e : ev) : option st :=
           match e with
           | EJoin j => if j =? k then
                          match pc (th s k) with
-                         | TDead => Some (set_thr s t (mkt QJoin (fn x) (tk x) (wf x) rest))
+                         | TDead => Some (set_thr s t (mkt QJoin (fn x) (tk x) (wf x) rest (ix x) (det x)))
                          | _ => None
                          end
                        else None
@@ -178,11 +182,12 @@ Definition step (c : cfg) (s : st) (t : tid) (e : ev) : option st :=
                      | EBcast k => if k =? 0 then
                          let s1 := set_shut_wait (set_shut s true) (wf x) in
                          let s2 := if wf x then s1 else set_qsize (set_disc (set_queue s1 []) (disc s ++ queue s)) 0 in
-                         Some (set_thr (set_waitc s2 []) t (mkt QB (fn x) (tk x) (wf x) (regs s)))
+                         Some (set_thr (set_waitc s2 []) t (mkt QB (fn x) (tk x) (wf x) (regs s) (ix x) (det x)))
                          else None
                      | _ => None
                      end
             | 4 => match e with EUnlock => unlock_to s t x (Ret (qsize s) false) | _ => None end
+            | 5 => match e with EUnlock => unlock_to s t x (Ret (busy s) false) | _ => None end
             | _ => None
             end
         | PEnq =>
@@ -193,7 +198,7 @@ Definition step (c : cfg) (s : st) (t : tid) (e : ev) : option st :=
                   | Idle =>
                       let s1 := set_workers s (workers s ++ [ch]) in
                       let s2 := if reg c then set_regs s1 (regs s ++ [ch]) else s1 in
-                      Some (set_thr (set_thr s2 ch (mkt TStart 0 0 false [])) t (setpc x PSp))
+                      Some (set_thr (set_thr s2 ch (mkt TStart 0 0 false [] 0 false)) t (setpc x PSp))
                   | _ => None
                   end else None
               | _ => None
@@ -217,13 +222,22 @@ Definition step (c : cfg) (s : st) (t : tid) (e : ev) : option st :=
             end
         | PSig => match e with EUnlock => unlock_to s t x (Ret RC_OK true) | _ => None end
         | QB => match e with EUnlock => unlock_to s t x QJoin | _ => None end
-        | TReg => match e with EUnlock => unlock_to s t x (if memb t (regs s) then TTop else TExit) | _ => None end
+        | TReg =>
+            (* `idx = iwulist_find_first(&tp->threads, &st)`, unlock, `if (idx == -1) return 0;` *)
+            match e with
+            | EUnlock =>
+                match find_first t (regs s) with
+                | Some i => Some (set_thr (set_owner s None) t (mkt TTop (fn x) (tk x) (wf x) (jl x) i (det x)))
+                | None => unlock_to s t x TExit
+                end
+            | _ => None
+            end
         | TL1 =>
             match e with
             | EDeq k =>
                 match queue s with
                 | y :: q => if k =? y then
-                    Some (set_thr (set_qsize (set_queue s q) (pred (qsize s))) t (mkt TDeq (fn x) k (wf x) (jl x))) else None
+                    Some (set_thr (set_qsize (set_queue s q) (pred (qsize s))) t (mkt TDeq (fn x) k (wf x) (jl x) (ix x) (det x))) else None
                 | [] => None
                 end
             | EUnlock => if is_nil (queue s) then unlock_to s t x TU1 else None
@@ -231,10 +245,14 @@ Definition step (c : cfg) (s : st) (t : tid) (e : ev) : option st :=
             end
         | TDeq => match e with EUnlock => unlock_to s t x TU1t | _ => None end
         | TL2 =>
-            if nthreads c <=? t then
-              (* overflow thread: `if (!tp->shutdown) { remove from tp->threads; detach }`, unlock, leave *)
+            if nthreads c <=? ix x then
+              (* `idx >= tp->num_threads` (overflow thread):
+                 `if (!tp->shutdown) { iwulist_remove_first_by(&tp->threads, &st); pthread_detach(st); }`, unlock, leave *)
               match e with
-              | EUnlock => unlock_to (if shut s then s else set_regs s (remove1 t (regs s))) t x TExit
+              | EUnlock =>
+                  if shut s then unlock_to s t x TExit
+                  else Some (set_thr (set_owner (set_regs s (remove_first t (regs s))) None) t
+                                     (mkt TExit (fn x) (tk x) (wf x) (jl x) (ix x) true))
               | _ => None
               end
             else if negb (is_nil (queue s)) then match e with EUnlock => unlock_to s t x TTop | _ => None end
